@@ -55,11 +55,17 @@ func isAllowedPossibleValue(opt *Option, value interface{}) error {
 		valueType := reflect.TypeOf(value)
 
 		// loading int's from the configuration JSON does not preserve the correct type
-		// as we get float64 instead. Make sure to convert them before.
-		if reflect.TypeOf(val.Value).ConvertibleTo(valueType) {
-			compareAgainst = reflect.ValueOf(val.Value).Convert(valueType).Interface()
+		// as we get float64 instead. Make sure to convert them before - if the
+		// possible value survives the conversion (300 does not fit a uint8).
+		possibleType := reflect.TypeOf(val.Value)
+		if possibleType.ConvertibleTo(valueType) && valueType.ConvertibleTo(possibleType) && possibleType.Comparable() {
+			converted := reflect.ValueOf(val.Value).Convert(valueType)
+			if converted.Convert(possibleType).Interface() == val.Value {
+				compareAgainst = converted.Interface()
+			}
 		}
-		if compareAgainst == value {
+		// (values of types that cannot be compared, eg. a []byte, are never equal)
+		if valueType.Comparable() && compareAgainst == value {
 			return nil
 		}
 
